@@ -3,3 +3,5 @@ open GrVerif.Props.C07
 #print axioms op_sem_eq_spec
 #print axioms run_eq_spec
 #print axioms drivers_agree
+#print axioms load_defined
+#print axioms accepted_programs_run_as_specified
